@@ -424,6 +424,66 @@ example :
      quiescent 1 (observe s1) = true ∧ daemonMatches (observe s1) 0 = true) := by
   decide
 
+/-! ### round 7: whole schedules (`EvR`, `obsTrace` of `Model/C05R.lean`)
+
+A schedule is a list of blocks of events — instructions, worker steps, daemon effects / answers / faults, lost pins, the
+refined `Recover` / `RecoverAll`, the daemon's read fault going on and off, `stabilize` — and an observation is taken after
+every block, as the driver does after every scripted action. -/
+
+/-- the Prop reading of the first clause as the driver evaluates it -/
+theorem clause_match_or_error_iff (n : Nat) (os : List Obs) :
+    os.all (fun o => !quiescent n o || (List.range n).all (matchOrError o)) = true ↔
+      ∀ o ∈ os, quiescent n o = true → ∀ c, c < n → matchOrError o c = true := by
+  simp only [List.all_eq_true, Bool.or_eq_true, Bool.not_eq_eq_eq_not, Bool.not_true, List.mem_range]
+  constructor
+  · intro h o ho hq c hc
+    rcases h o ho with h1 | h1
+    · rw [hq] at h1; cases h1
+    · exact h1 c hc
+  · intro h o ho
+    cases hq : quiescent n o
+    · exact Or.inl rfl
+    · exact Or.inr (fun c hc => h o ho hq c hc)
+
+/-- `holds` is the conjunction of its four named clauses -/
+theorem holds_iff (n : Nat) (o0 : Obs) (fs : List Frame) :
+    holds n o0 fs = true ↔
+      ((o0 :: fs.map (·.obs)).all (fun o => !quiescent n o || (List.range n).all (matchOrError o)) = true ∧
+       healsFrom n o0 fs = true ∧ allFrames usesRecorded o0 fs = true ∧ fs.all (reported n) = true) := by
+  simp [holds, clauses, and_assoc]
+
+/-- For EVERY schedule — every list of blocks of instructions, worker steps, daemon actions and fault choices, with the
+    refined `Recover` / `RecoverAll` and daemon read failures — EVERY observation point of the model's trace satisfies the
+    first clause exactly as the driver evaluates it (`quiescent_match_or_error` of `Spec.clauses`). -/
+theorem model_trace_match_or_error (cfg : Cfg) (blocks : List (List EvR)) :
+    (observeR m0.s m0.ls :: obsTrace cfg m0 blocks).all
+      (fun o => !quiescent cfg.ncids o || (List.range cfg.ncids).all (matchOrError o)) = true := by
+  rw [clause_match_or_error_iff]
+  intro o ho hq c hc
+  have key : ∀ s ls, Inv s → o = observeR s ls → matchOrError o c = true := by
+    intro s ls hi e
+    subst e
+    rw [quiescent_R] at hq
+    exact matchOrError_R ls (matchOrError_of_quiescent hi hq c hc)
+  rcases List.mem_cons.1 ho with e | e
+  · exact key init true inv_init e
+  · obtain ⟨s, ls, hi, e⟩ := obsTrace_inv cfg blocks m0 inv_init o e
+    exact key s ls hi e
+
+/-- ... and the state behind every observation point satisfies the tracker invariant -/
+theorem model_trace_invariant (cfg : Cfg) (blocks : List (List EvR)) :
+    ∀ o ∈ obsTrace cfg m0 blocks, ∃ s ls, Inv s ∧ o = observeR s ls :=
+  obsTrace_inv cfg blocks m0 inv_init
+
+/-- a non-trivial schedule: an errored pin, a failed-listing round, a healthy round, each block ending at a stable point -/
+example :
+    (obsTrace k06Cfg m0 [[.base (.track (k06Pin .direct)), .stabilize], [.base (.retErr 0), .stabilize],
+      [.lsFail true], [.recoverAll [([], 0)], .stabilize], [.lsFail false], [.recoverAll [([.deqPin], 0)], .stabilize],
+      [.base (.effect 1), .base (.retOk 1), .stabilize]]).map (fun o => (o.status 0, quiescent 1 o)) =
+    [(.pinning, false), (.pinError, true), (.pinError, true), (.pinError, true), (.pinError, true), (.pinning, false),
+     (.pinned, true)] := by
+  decide
+
 /-! ### The anchored functions still read as the model was transcribed (regenerated from /repo on every run) -/
 
 theorem gen_source_Stateless_f_New : Gen.Stateless.f_New = Expected.Stateless.f_New := rfl
